@@ -564,9 +564,14 @@ package larking
 //@   modifies E$param
 //@   ensures base(ps) == 0 || isfresh(ps)
 
-//@ func (*Mux).serveHTTP serves C07 partial ghost
+//@ func (*Mux).serveHTTP serves C07 partial ghost count post
 //@   requires m != nil && w != nil && r != nil
-//@   witness verifWitnessPathAuthoritative
+//@   count loads `m.loadState(`
+//@   count begins `sh.HandleRPC(ctx, &stats.Begin{`
+//@   count ends `sh.HandleRPC(ctx, &stats.End{`
+//@   ensures [one-snapshot C12] loads == 1
+//@   ensures [end-after-begin C18] begins == ends
+//@   witness verifWitnessServeHTTP
 //@   ghost at "queryParams, err := method.parseQueryParams(r.URL.Query())" pp = params
 //@   assert at "hd, err := s.pickMethodHandler(method.name)" [path-params-last C07] len(params) == len(pp) + len(queryParams)
 //@        && (forall x :: off(params) + len(queryParams) <= x && x < off(params) + len(params)
@@ -627,6 +632,9 @@ package larking
 //@   count hcalls `hd.handler(`
 //@   count refusals `http.Error(`
 //@   count loads `m.loadState(`
+//@   count begins `sh.HandleRPC(ctx, &stats.Begin{`
+//@   count ends `sh.HandleRPC(ctx, &stats.End{`
+//@   ensures [end-after-begin C18] begins == ends
 //@   callsites `http.Error(` 7
 //@   ensures [handler-or-refusal C15 C08] hcalls == 1 || refusals == 1
 //@   ensures [no-handler-after-refusal C15] refusals == 1 ==> hcalls == 0
@@ -710,6 +718,11 @@ package larking
 //@   witness verifWitnessNewMux
 //@   assert at "muxOpts.contentTypeOffers = append(muxOpts.contentTypeOffers, k)" [content-type-offers-are-codecs C04] maphas(muxOpts.codecs, k#2)
 //@   assert at "muxOpts.encodingTypeOffers = append(muxOpts.encodingTypeOffers, k)" [encoding-offers-are-compressors C04] maphas(muxOpts.compressors, k#4)
+
+// Mux.opts is set once by NewMux and never written again (checked by a scan of
+// every store in the package), so the two reads of m.opts.statsHandler in a
+// request see the same value.
+//@ immutable F$Mux.opts except NewMux
 
 // ---------------------------------------------------------------------------
 // Publication discipline (C11, C12, C16): the routing state is replaced by one
